@@ -35,11 +35,20 @@ thread_local! {
     static CANCEL_AT: Cell<u64> = const { Cell::new(u64::MAX) };
     static CANCEL_FIRED: Cell<bool> = const { Cell::new(false) };
     static TOKEN: RefCell<Option<salsa::CancellationToken>> = const { RefCell::new(None) };
-    /// Current simulated task (for attribution of query executions), 0 = the main flow.
-    static CUR_TASK: Cell<u64> = const { Cell::new(0) };
     /// FNV hash of the sequence of (task, query-name) pairs: the interleaving signature.
     static ATTR_HASH: Cell<u64> = const { Cell::new(0xcbf2_9ce4_8422_2325) };
     static TASKS_WITH_QUERIES: RefCell<std::collections::BTreeSet<u64>> = const { RefCell::new(std::collections::BTreeSet::new()) };
+}
+
+// Current simulated task (for attribution of query executions), 0 = the main flow. Under shuttle
+// the tasks are coroutines of one OS thread, so the variable must be shuttle's own thread-local.
+#[cfg(not(feature = "shuttle"))]
+thread_local! {
+    static CUR_TASK: Cell<u64> = const { Cell::new(0) };
+}
+#[cfg(feature = "shuttle")]
+shuttle::thread_local! {
+    static CUR_TASK: Cell<u64> = Cell::new(0);
 }
 
 pub struct QuerySubscriber;
